@@ -115,12 +115,18 @@ Readings(cont) ==
           THEN {Cont("rnd", <<cont.pos[2], cont.pos[1]>>, cont.h, "std", cont.mut)} ELSE {})
     \cup (IF cont.kind = "rnd" /\ cont.pos[1] \in OdsRows
           THEN {Cont("sample", <<cont.pos[2], cont.pos[1]>>, cont.h, "rowproof", cont.mut)} ELSE {})
-VerifiesAs(id, x) == x.kind = id.kind /\ x.mut = "none" /\ x.pos = id.pos /\ SqAt[x.h] = SqAt[id.h]
-Verifies(id, cont) == \E x \in Readings(cont) : VerifiesAs(id, x)
+\* sqat: the square committed by the header currently stored at each height (a container's own
+\* square is named by the height label it was made from: SqAt[x.h])
+VerifiesAsS(sqat, id, x) == x.kind = id.kind /\ x.mut = "none" /\ x.pos = id.pos /\ SqAt[x.h] = sqat[id.h]
+VerifiesS(sqat, id, cont) == \E x \in Readings(cont) : VerifiesAsS(sqat, id, x)
+VerifiesAs(id, x) == VerifiesAsS(SqAt, id, x)
+Verifies(id, cont) == VerifiesS(SqAt, id, cont)
 
-HashDemand(st, b) ==
-    IF IdDecodes(b) /\ ContWellFormed(b) /\ b.id.h \in st /\ Verifies(b.id, b.cont)
+\* st: heights with a stored header, sqat: the square each of them commits to *now*
+HashDemandS(sqat, st, b) ==
+    IF IdDecodes(b) /\ ContWellFormed(b) /\ b.id.h \in st /\ VerifiesS(sqat, b.id, b.cont)
     THEN Ok(IdHash(b.id)) ELSE Err
+HashDemand(st, b) == HashDemandS(SqAt, st, b)
 
 \* get_block_container: the container bytes iff the block decodes and carries exactly the wanted CID
 ExtractDemand(b) ==
